@@ -434,6 +434,7 @@ class Verifier:
         self.skolems = []
         self.pending_quant = []
         self.spec_mode = 'goal'
+        self.in_spec = 0
         self.decoders = {}
         self.scenario_label = ''
         self.path_id = 0
@@ -453,10 +454,12 @@ class Verifier:
     def eval_spec(self, fn, args, mode='goal'):
         prev = self.spec_mode
         self.spec_mode = mode
+        self.in_spec += 1
         try:
             return self.interp.call_function(self.spec_closure(fn), list(args), {})
         finally:
             self.spec_mode = prev
+            self.in_spec -= 1
 
     def summarize(self, fn, args, mode):
         """Run a (pure) spec function in a nested exploration that starts from
